@@ -49,4 +49,16 @@ func init() {
 			Fields:      map[string]string{".Metadata.Group": "group"},
 			Literals:    map[string]string{`""`: "(0 : Nat)"}})
 	}
+	// C16: the validation of a metric operation and of a batch (errors are counted)
+	msub := map[string]string{"op.Action": "op.action", `op.Group == ""`: "(op.group == 0)", `op.Group != ""`: "(op.group != 0)",
+		`op.Name == ""`: "(op.name == 0)", "op.Value == nil": "op.value.isNone", "op.Buckets == nil": "(!op.buckets)",
+		"op.Set != nil": "op.set.isSome", "op.Add != nil": "op.add.isSome", "opErrs.ErrorOrNil()": "opErrs",
+		"opsErrs.ErrorOrNil()": "opsErrs", "ValidateMetricOperation()": "(validateMetricOperation op)", "err != nil": "(err != 0)"}
+	for _, f := range [][3]string{{"ValidateMetricOperation", "validateMetricOperation", "(op : ShellOp.Metrics.Op)"},
+		{"ValidateOperations", "validateOperations", "(ops : List ShellOp.Metrics.Op)"}} {
+		transTargets = append(transTargets, transTarget{File: "pkg/metric_storage/operation/operation.go", Func: f[0], Lean: f[1],
+			Pure: true, Ret: "Nat", Params: map[string]string{"op": "ShellOp.Metrics.Op", "ops": "List ShellOp.Metrics.Op"},
+			Subst: msub, VarInit: map[string]string{"opErrs": "(0 : Nat)", "opsErrs": "(0 : Nat)"},
+			CountAppends: map[string]bool{"multierror.Append": true}, IfConvert: true})
+	}
 }
